@@ -542,6 +542,8 @@ def run(check, repo: Repo) -> None:
                                  f"the patch samples the correlation at the mirrored position (c(−x) instead of c(x))")
 
     # re-centring of the local peak
+    if not [d for d in definitions(dnp, "row") if isinstance(d, ast.AST)]:
+        raise AnalysisError("dft_upsample: the output-sample vector `row` was not found (the kernel construction is written differently) — the re-centring rule cannot be evaluated")
     row_def = _resolve(dnp, ast.Name(id="row", ctx=ast.Load()))
     sym = "arange(-du, du + 1)" in _norm_index_form(row_def)
     cen = [d for d in definitions(ccs, "center") if isinstance(d, ast.AST)]
